@@ -51,6 +51,7 @@ type Case struct {
 	Path        string `json:"path"`
 	RawQuery    string `json:"raw_query"`
 	ContentType string `json:"content_type"`
+	Accept      string `json:"accept"` // response negotiation must not influence how the request is decoded
 	Gzip        bool   `json:"gzip"`
 	Body        []byte `json:"body"`
 	Chunks      []int  `json:"chunks"`
@@ -111,6 +112,9 @@ func Check(c Case) (vs []evid.Violation, delivered bool) {
 	}
 	if c.Gzip {
 		hdr.Set("Content-Encoding", "gzip")
+	}
+	if c.Accept != "" {
+		hdr.Set("Accept", c.Accept)
 	}
 	var req *http.Request
 	if len(c.Body) > 0 {
@@ -577,8 +581,9 @@ func genCase(t *rapid.T) Case {
 			c.EOFWithLast = rapid.Bool().Draw(t, "eofWithLast")
 		}
 	}
+	c.Accept = rapid.SampledFrom([]string{"", "", "", "application/json", "application/protobuf", "*/*", "application/octet-stream;q=0.5, application/json;q=0.1", "text/html"}).Draw(t, "accept")
 	// classes
-	c.Classes = []string{"body=" + c.BodySel, fmt.Sprintf("vars=%d", len(vars)), "ct=" + c.ContentType}
+	c.Classes = []string{"body=" + c.BodySel, "accept=" + c.Accept, fmt.Sprintf("vars=%d", len(vars)), "ct=" + c.ContentType}
 	if c.Gzip {
 		c.Classes = append(c.Classes, "gzip")
 	}
